@@ -99,6 +99,7 @@ class Engine(OpsMixin, ExprMixin, CallMixin, StmtMixin, BuiltinsMixin):
         self.subscript_models = {}
         self.binop_models = {}
         self.ufun_rewrites = {}
+        self.ghost_defaults = {}    # ghost state present in every function verification: name -> fn(engine) -> Val
         self.coerce_hooks = {}
         self.binder_depth = 0
         self.truth_only = False
@@ -243,6 +244,8 @@ class Engine(OpsMixin, ExprMixin, CallMixin, StmtMixin, BuiltinsMixin):
             inputs[g] = gv
         st.env = dict(env)
         self.current_inputs = {k: v.t for k, v in inputs.items()}
+        for gname, gfn in self.ghost_defaults.items():
+            st.ghost[gname] = gfn(self)
         if c.ghost_init is not None:
             c.ghost_init(self, st)
         for oname, ofn in c.observe.items():
